@@ -7,8 +7,8 @@ use trustfall_core::ir::FieldValue;
 use super::data_gen::{gen_value, regex_pool, string_pool};
 use super::schema_gen::{EdgeDef, GenSchema};
 use super::{Ty, graphql_literal, params_sexp};
-use crate::rng::Rng;
-use crate::sexp::Sexp;
+use tfharness::rng::Rng;
+use tfharness::sexp::Sexp;
 
 #[derive(Debug, Clone, Copy, PartialEq, Eq, PartialOrd, Ord)]
 pub enum Op {
@@ -217,7 +217,7 @@ fn qparams_sexp(params: &[(String, FieldValue)]) -> Sexp {
 }
 
 fn node_sexp(n: &Node) -> Sexp {
-    let a = Sexp::atom;
+    use super::atom as a;
     let mut v = vec![n.coerce_to.clone().map(a).unwrap_or_else(|| a("-"))];
     for f in &n.fields {
         v.push(match f {
@@ -287,9 +287,13 @@ pub struct QueryKnobs {
     /// `@recurse` on an edge where the schema does not permit it (frontend must reject)
     pub p_bad_recurse: (u32, u32),
     pub p_output: (u32, u32),
+    /// a filter on a property outside folds (such filters remove rows) / inside folds (they shrink lists)
     pub p_filter: (u32, u32),
+    pub p_filter_in_fold: (u32, u32),
     /// a tag operand instead of a variable, when a compatible tag site is in scope
     pub p_tag_operand: (u32, u32),
+    /// the same inside folds (imported tags)
+    pub p_tag_operand_in_fold: (u32, u32),
     pub p_reuse_var: (u32, u32),
     pub p_typename: (u32, u32),
     pub p_count_output: (u32, u32),
@@ -310,13 +314,15 @@ impl Default for QueryKnobs {
             w_plain: 8,
             w_optional: 5,
             w_fold: 6,
-            w_recurse: 4,
+            w_recurse: 3,
             p_bad_recurse: (1, 60),
             p_output: (3, 5),
-            p_filter: (1, 2),
+            p_filter: (1, 4),
+            p_filter_in_fold: (3, 5),
             p_tag_operand: (1, 2),
+            p_tag_operand_in_fold: (3, 4),
             p_reuse_var: (1, 6),
-            p_typename: (1, 10),
+            p_typename: (1, 14),
             p_count_output: (2, 5),
             p_count_filter: (2, 5),
             p_invalid_regex: (1, 40),
@@ -454,12 +460,12 @@ impl<'a> Gen<'a> {
     }
 
     /// Tag sites visible from `sc` whose type satisfies `pred`.
-    fn visible_sites(&self, sc: &Scope, pred: &dyn Fn(&Ty) -> bool, allow_dup: bool) -> Vec<usize> {
+    fn visible_sites(&self, sc: &Scope, pred: &dyn Fn(&Ty) -> bool, allow_dup: bool, exclude: Option<usize>) -> Vec<usize> {
         self.sites
             .iter()
             .enumerate()
             .filter(|(_, s)| {
-                if !pred(&s.ty) || !is_prefix(&s.path, &sc.path) {
+                if Some(s.id) == exclude || !pred(&s.ty) || !is_prefix(&s.path, &sc.path) {
                     return false;
                 }
                 if s.path.len() == sc.path.len() {
@@ -511,7 +517,8 @@ impl<'a> Gen<'a> {
     }
 
     /// A filter on a left operand of type `l` (`prop` = property name or `None` for a fold count).
-    fn gen_filter(&mut self, sc: &Scope, prop: Option<&str>, l: &Ty) -> (Op, Arg) {
+    /// `own` = the site of the filtered field itself (a filter against its own tag is mostly trivial, so rare).
+    fn gen_filter(&mut self, sc: &Scope, prop: Option<&str>, l: &Ty, own: Option<usize>) -> (Op, Arg) {
         use Op::*;
         let is_count = prop.is_none();
         let mut cats: Vec<&[Op]> = vec![&[Eq, Neq], &[Eq, Neq], &[OneOf, NotOneOf]];
@@ -532,6 +539,8 @@ impl<'a> Gen<'a> {
         }
         if !l.is_list() && l.base == "String" {
             cats.push(&[HasPrefix, NotHasPrefix, HasSuffix, NotHasSuffix, HasSubstring, NotHasSubstring]);
+            cats.push(&[HasPrefix, NotHasPrefix, HasSuffix, NotHasSuffix, HasSubstring, NotHasSubstring]);
+            cats.push(&[Regex, NotRegex]);
             cats.push(&[Regex, NotRegex]);
         }
         let cat = cats[self.rng.below(cats.len())];
@@ -567,9 +576,11 @@ impl<'a> Gen<'a> {
             }
             _ => (Box::new(|t: &Ty| !t.is_list() && t.base == "String"), Ty::named("String", false)),
         };
-        if chance(self.rng, self.knobs.p_tag_operand) {
+        let p_tag = if sc.path.len() > 1 { self.knobs.p_tag_operand_in_fold } else { self.knobs.p_tag_operand };
+        if chance(self.rng, p_tag) {
             let allow_dup = chance(self.rng, self.knobs.p_dup_import);
-            let cands = self.visible_sites(sc, &*tag_pred, allow_dup);
+            let exclude = if self.rng.chance(1, 5) { None } else { own };
+            let cands = self.visible_sites(sc, &*tag_pred, allow_dup, exclude);
             if !cands.is_empty() {
                 let idx = cands[self.rng.below(cands.len())];
                 return (op, self.use_site(idx, sc));
@@ -598,7 +609,8 @@ impl<'a> Gen<'a> {
             tdef.props[self.rng.below(tdef.props.len())].clone()
         };
         let mut dirs = vec![];
-        let n_filters = if chance(self.rng, self.knobs.p_filter) { 1 + usize::from(self.rng.chance(1, 5)) } else { 0 };
+        let p_filter = if sc.path.len() > 1 { self.knobs.p_filter_in_fold } else { self.knobs.p_filter };
+        let n_filters = if chance(self.rng, p_filter) { 1 + usize::from(self.rng.chance(1, 5)) } else { 0 };
         let want_output = chance(self.rng, self.knobs.p_output) || n_filters == 0;
         let output_first = self.rng.chance(1, 2);
         if want_output && output_first {
@@ -618,7 +630,7 @@ impl<'a> Gen<'a> {
             tag: None,
         });
         for _ in 0..n_filters {
-            let (op, arg) = self.gen_filter(sc, Some(&name), &pty);
+            let (op, arg) = self.gen_filter(sc, Some(&name), &pty, Some(id));
             dirs.push(Dir::Filter(op, arg));
         }
         if want_output && !output_first {
@@ -661,7 +673,7 @@ impl<'a> Gen<'a> {
         let k = self.knobs;
         let can_recurse = self.schema.is_subtype(from_ty, &e.target);
         let w_rec = if can_recurse {
-            k.w_recurse * 3
+            k.w_recurse * 2
         } else if chance(self.rng, k.p_bad_recurse) {
             1000
         } else {
@@ -716,7 +728,7 @@ impl<'a> Gen<'a> {
                         if allowed && chance(self.rng, k.p_count_filter) {
                             let n = 1 + usize::from(self.rng.chance(1, 4));
                             for _ in 0..n {
-                                let (op, arg) = self.gen_filter(&fsc, None, &Ty::named("Int", false));
+                                let (op, arg) = self.gen_filter(&fsc, None, &Ty::named("Int", false), None);
                                 fdirs.push(FDir::CountFilter(op, arg));
                             }
                             self.feat("count-filter");
